@@ -400,6 +400,11 @@ def check_tear(eng, run):
     fn = _meth(aa, "serve_forever")
     resetters = {g.name for g in fn.nested.values() if not isinstance(g.node, ast.Lambda) and any(isinstance(x, ast.Assign) and any((dotted(t) or "").endswith("__server_run_scope") for t in x.targets)
                                                                                                   and isinstance(x.value, ast.Constant) and x.value.value is None for x in own_nodes(g.node))}
+    # ... a closure of serve_forever, or a private method of the class (`self.__reset_run_scope`)
+    def resets_scope(g):
+        return not isinstance(g.node, ast.Lambda) and any(isinstance(x, ast.Assign) and any((dotted(t) or "").endswith("__server_run_scope") for t in x.targets)
+                                                          and isinstance(x.value, ast.Constant) and x.value.value is None for x in own_nodes(g.node))
+    resetters |= {f"{fn.self_name}.{m.name}" for m in aa.methods.values() if m.name.startswith("_") and resets_scope(m)}
     ok = any(isinstance(n, ast.Call) and _cname(n) == "callback" and n.args and dotted(n.args[0]) in resetters for n in own_nodes(fn.node))
     if not ok:
         run.finding("C18.tear", fn, fn.node, "the run scope is not reset by an exit callback")
@@ -740,21 +745,22 @@ def run(eng, run):
     from sa.anchors import verify as _verify_anchor_names
     _verify_anchor_names(eng, run)
     run.not_decided += NOT_DECIDED
-    check_order(eng, run)
-    check_wait(eng, run)
-    check_thread_up(eng, run)
-    check_refuse(eng, run)
-    check_latch(eng, run)
-    check_snapshot(eng, run)
-    check_closed_latch_set(eng, run)
-    check_close_not_behind_activation(eng, run)
+    run.attempt(check_order, eng, run)
+    run.attempt(check_wait, eng, run)
+    run.attempt(check_thread_up, eng, run)
+    run.attempt(check_refuse, eng, run)
+    run.attempt(check_latch, eng, run)
+    run.attempt(check_snapshot, eng, run)
+    run.attempt(check_closed_latch_set, eng, run)
+    run.attempt(check_close_not_behind_activation, eng, run)
     from sa.analyses.arms import check_shared_future_awaits
-    check_shared_future_awaits(eng, run, "C18.tear")
-    check_tear(eng, run)
-    check_portal(eng, run)
-    check_join_shuts_down(eng, run)
-    check_default_after_running_test(eng, run)
-    check_scope_withdrawn(eng, run)
+    run.attempt(check_shared_future_awaits, eng, run, "C18.tear")
+    run.attempt(check_tear, eng, run)
+    run.attempt(check_portal, eng, run)
+    run.attempt(check_join_shuts_down, eng, run)
+    run.attempt(check_default_after_running_test, eng, run)
+    run.attempt(check_scope_withdrawn, eng, run)
+    run.end_of_rules()
 
 
 # ---------------------------------------------------------------------------------------------- self-test corpus
